@@ -22,7 +22,11 @@ func runAll(c *explore.Check, scs []*explore.Scenario, budget time.Duration) {
 		if budget > 0 && s.Deadline.IsZero() {
 			s.Deadline = time.Now().Add(budget)
 		}
-		c.Add(s.Explore())
+		st := s.Explore()
+		c.Add(st)
+		if st.Hung {
+			break // the process still carries the hung execution's goroutine: report and stop
+		}
 	}
 }
 
